@@ -132,6 +132,15 @@ pub fn random_text(rng: &mut Rng, max_syms: usize) -> String {
             1 => s.push_str("~1"),
             2 => s.push_str("~01"),
             3 => s.push('~'),
+            // any ASCII byte (controls, DEL, '%', '"', '\\', digits 2-9 ...) and any Unicode scalar value
+            4 => s.push(char::from(rng.below(128) as u8)),
+            5 if rng.chance(1, 2) => {
+                let c = loop {
+                    let v = match rng.below(4) { 0 => rng.below(0x800), 1 => rng.below(0x10000), 2 => 0x10000 + rng.below(0x100000), _ => 0x80 + rng.below(0x80) };
+                    if let Some(c) = char::from_u32(v as u32) { break c; }
+                };
+                s.push(c)
+            }
             _ => s.push_str(*rng.pick(&SIGMA_PLUS[..])),
         }
     }
